@@ -16,6 +16,14 @@ CHECKS = {
             "VCs generated from the AST of the real _p_norm (loop invariants with a recursively defined Sigma, per-segment NRA obligations) discharged by z3/cvc5; bounded run-time stand-in vs closed-form integral",
             "For p in {1,2,3,4} every path of the real _p_norm body is proved to add exactly the integral of |y|^p over the segment and the two loops to accumulate the double sum, for all real end-points, all numbers of depths and breakpoints. Real p, class entry points, norm laws and sup-norm stability are bounded stand-ins.",
             "floats as reals (A1); closed form = integral (calculus, numerically cross-checked); VC generator + models + contracts trusted; z3/cvc5"),
+    "C14": ("proof",
+            "VCs from the AST of evalHeatKernel/heat (nested-loop Sigma invariants, modular call contract) + spec lemmas on the summand, z3/cvc5; bounded run-time stand-in for the float-only effects",
+            "The real evalHeatKernel is proved to return the normalised closed double sum for all diagram sizes and contents and heat to return sqrt(k(F,F)+k(G,G)-2k(F,G)); symmetry / diagonal / shift laws are proved on the summand. NaN-freedom, zero on reorderings, triangle inequality and Wasserstein stability are float or paper-level facts: bounded stand-in.",
+            "floats as reals; kernel positive definiteness assumed (radicand >= 0); exp uninterpreted (exp>0); generator, models, contracts trusted"),
+    "C16": ("proof",
+            "VCs from the AST of persistent_entropy for 12-16 flag/input-form variants: D6 mask contract, Sigma-extensionality/positivity meta-rules, raises-iff clauses, z3/cvc5; exhaustive small-scope run-time stand-in",
+            "For every flag combination and for single/list input the real function is proved to return -sum p log p of the retained bar lengths (divided by log n when normalised), to raise exactly when a retained bar has non-positive length or keep_inf lacks a value, for all barcode sizes and contents. Bounds (Jensen) and invariances are sampled / proved on the spec.",
+            "floats as reals with tagged infinities; log uninterpreted with sign facts; Sigma meta-rules (induction) trusted; D6 mask-indexing contract assumed; generator, models, contracts trusted"),
 }
 
 NOT_YET = "check not built yet in this session (planned per DESIGN.md section 5)"
